@@ -30,7 +30,17 @@
 //	      and Engine.RenderTo / Template.RenderTo into a bytes.Buffer, a strings.Builder and a plain io.Writer
 //	      that has no WriteString method; every route must give the model's bytes exactly.
 //
-// Every source of the other families is rendered a second time behind a 4100-byte comment (second tokenizer).
+//	seq:  every string of at most 2 (thorough: 3) symbols as literal text AFTER a chain of one or two undashed tags /
+//	      comments that directly follow a dash-closed tag ({{ v -}}{{ v }} text), and BEFORE such a chain that
+//	      directly precedes a dash-opened tag (text{##}{{- v }}): no dash is adjacent to the text, so it must
+//	      be emitted exactly.
+//
+//	hist: HISTORIES on one engine: a render that fails at render time after having written literal text (9 ways
+//	      of failing, 4 sizes of text, string- and writer-returning entry points), then one or two successful
+//	      renders (the same template under a good context, other templates of 2 – 70 000 bytes; again every
+//	      entry point): each successful render must give exactly its model, with nothing left of the failed one.
+//
+// Every source of the other families (not hist) is rendered a second time behind a 4100-byte comment (second tokenizer).
 package main
 
 import (
@@ -667,44 +677,45 @@ type plainWriter struct{ b []byte }
 
 func (p *plainWriter) Write(q []byte) (int, error) { p.b = append(p.b, q...); return len(q), nil }
 
+// run renders the template registered under `name` (Engine routes) or the parsed template tp (Template routes).
 type longRoute struct {
-	name string
-	run  func(e *twig.Engine, tp *twig.Template, ctx map[string]interface{}) (string, error)
+	id, name string
+	run      func(e *twig.Engine, name string, tp *twig.Template, ctx map[string]interface{}) (string, error)
 }
 
 var longRoutes = []longRoute{
-	{"Engine.Render", func(e *twig.Engine, tp *twig.Template, ctx map[string]interface{}) (string, error) {
-		return e.Render("t", ctx)
+	{"ER", "Engine.Render", func(e *twig.Engine, name string, tp *twig.Template, ctx map[string]interface{}) (string, error) {
+		return e.Render(name, ctx)
 	}},
-	{"Template.Render", func(e *twig.Engine, tp *twig.Template, ctx map[string]interface{}) (string, error) {
+	{"TR", "Template.Render", func(e *twig.Engine, name string, tp *twig.Template, ctx map[string]interface{}) (string, error) {
 		return tp.Render(ctx)
 	}},
-	{"Engine.RenderTo(bytes.Buffer)", func(e *twig.Engine, tp *twig.Template, ctx map[string]interface{}) (string, error) {
+	{"ERTb", "Engine.RenderTo(bytes.Buffer)", func(e *twig.Engine, name string, tp *twig.Template, ctx map[string]interface{}) (string, error) {
 		var w bytes.Buffer
-		err := e.RenderTo(&w, "t", ctx)
+		err := e.RenderTo(&w, name, ctx)
 		return w.String(), err
 	}},
-	{"Engine.RenderTo(strings.Builder)", func(e *twig.Engine, tp *twig.Template, ctx map[string]interface{}) (string, error) {
+	{"ERTs", "Engine.RenderTo(strings.Builder)", func(e *twig.Engine, name string, tp *twig.Template, ctx map[string]interface{}) (string, error) {
 		var w strings.Builder
-		err := e.RenderTo(&w, "t", ctx)
+		err := e.RenderTo(&w, name, ctx)
 		return w.String(), err
 	}},
-	{"Engine.RenderTo(plain io.Writer)", func(e *twig.Engine, tp *twig.Template, ctx map[string]interface{}) (string, error) {
+	{"ERTp", "Engine.RenderTo(plain io.Writer)", func(e *twig.Engine, name string, tp *twig.Template, ctx map[string]interface{}) (string, error) {
 		var w plainWriter
-		err := e.RenderTo(&w, "t", ctx)
+		err := e.RenderTo(&w, name, ctx)
 		return string(w.b), err
 	}},
-	{"Template.RenderTo(bytes.Buffer)", func(e *twig.Engine, tp *twig.Template, ctx map[string]interface{}) (string, error) {
+	{"TRTb", "Template.RenderTo(bytes.Buffer)", func(e *twig.Engine, name string, tp *twig.Template, ctx map[string]interface{}) (string, error) {
 		var w bytes.Buffer
 		err := tp.RenderTo(&w, ctx)
 		return w.String(), err
 	}},
-	{"Template.RenderTo(strings.Builder)", func(e *twig.Engine, tp *twig.Template, ctx map[string]interface{}) (string, error) {
+	{"TRTs", "Template.RenderTo(strings.Builder)", func(e *twig.Engine, name string, tp *twig.Template, ctx map[string]interface{}) (string, error) {
 		var w strings.Builder
 		err := tp.RenderTo(&w, ctx)
 		return w.String(), err
 	}},
-	{"Template.RenderTo(plain io.Writer)", func(e *twig.Engine, tp *twig.Template, ctx map[string]interface{}) (string, error) {
+	{"TRTp", "Template.RenderTo(plain io.Writer)", func(e *twig.Engine, name string, tp *twig.Template, ctx map[string]interface{}) (string, error) {
 		var w plainWriter
 		err := tp.RenderTo(&w, ctx)
 		return string(w.b), err
@@ -842,7 +853,7 @@ func longCase(t *vlib.T, k *longKind, pat *longPat, n int, tg *tagc) *vlib.Outco
 						msg = fmt.Sprintf("PANIC %v", r)
 					}
 				}()
-				g, err := rt.run(e, tp, ctx)
+				g, err := rt.run(e, "t", tp, ctx)
 				if err != nil {
 					return "", "ERR " + err.Error()
 				}
@@ -892,6 +903,352 @@ func longFamily(t *vlib.T) {
 	}
 }
 
+// ---- seq: literal text that follows (precedes) a LATER (earlier) undashed tag next to a dashed tag ------
+//
+// A dash asks for the removal of the whitespace ADJACENT to its own delimiter. In
+//
+//	D X1 [X2] text        D  = a tag whose closing delimiter carries a dash,
+//	text X1 [X2] D'       D' = a tag whose opening delimiter carries a dash,
+//
+// with one or two undashed tags / comments X between the dashed delimiter and the text and NO text between
+// the tags, the text is adjacent to an undashed delimiter only: no dash asks for anything to be removed
+// from it, so it must come out byte for byte (added after the seeded change C04-G was missed: the lit
+// family only ever put text directly next to the dashed delimiter, or next to an undashed tag with no
+// dashed tag in front of it).
+
+type seqPart struct {
+	name           string
+	pre, src, post string // pre goes to the very front of the template, post to its very end
+	out            string
+}
+
+// undashed things that stand between the dashed delimiter and the text (all block constructs are `if t`
+// with t true, so that any combination of pre / src / post nests properly)
+var seqXs = []seqPart{
+	{name: "print", src: "{{ v }}", out: "V"},
+	{name: "ecomment", src: "{##}"},
+	{name: "comment", src: "{# c #}"},
+	{name: "set", src: "{% set q = 1 %}"},
+	{name: "ifopen", src: "{% if t %}", post: "{% endif %}"},
+	{name: "ifclose", pre: "{% if t %}", src: "{% endif %}"},
+	{name: "ifwhole", src: "{% if t %}y{% endif %}", out: "y"},
+}
+
+// R: tags closed with a dash; they stand in front of the chain, the text follows the chain
+var seqDashR = []seqPart{
+	{name: "print", src: "{{ v -}}", out: "V"},
+	{name: "printboth", src: "{{- v -}}", out: "V"},
+	{name: "set", src: "{% set q = 1 -%}"},
+	{name: "ifopen", src: "{% if t -%}", post: "{% endif %}"},
+	{name: "ifwhole", src: "{% if t %}y{% endif -%}", out: "y"},
+}
+
+// L: tags opened with a dash; the text stands in front of the chain, they follow it
+var seqDashL = []seqPart{
+	{name: "print", src: "{{- v }}", out: "V"},
+	{name: "printboth", src: "{{- v -}}", out: "V"},
+	{name: "set", src: "{%- set q = 1 %}"},
+	{name: "ifwhole", src: "{%- if t %}y{% endif %}", out: "y"},
+	{name: "endif", pre: "{% if t %}", src: "{%- endif %}"},
+}
+
+// seqTemplates: the templates of one (direction, dashed tag, chain, text).
+func seqTemplates(dir string, d *seqPart, chain []*seqPart, tx string) []tmpl {
+	var pres, mid, midOut, posts string
+	for _, x := range chain {
+		pres += x.pre
+		mid += x.src
+		midOut += x.out
+		posts += x.post
+	}
+	var r []tmpl
+	if dir == "R" {
+		// pres D chain text posts — the text is followed by a tag iff something is appended
+		posts = d.post + posts
+		if literal(tx, posts != "") {
+			r = append(r, tmpl{"after-chain", pres + d.pre + d.src + mid + tx + posts, d.out + midOut + tx})
+		}
+		if literal(tx, true) {
+			r = append(r, tmpl{"x-after-chain-tag", pres + d.pre + "x" + d.src + mid + tx + "{{ v }}" + posts, "x" + d.out + midOut + tx + "V"})
+		}
+		return r
+	}
+	// pres text chain D posts — the text is always followed by a tag
+	posts = d.post + posts
+	if literal(tx, true) {
+		r = append(r, tmpl{"before-chain", pres + d.pre + tx + mid + d.src + posts, tx + midOut + d.out})
+		r = append(r, tmpl{"tag-before-chain-x", pres + d.pre + "{{ v }}" + tx + mid + d.src + "x" + posts, "V" + tx + midOut + d.out + "x"})
+	}
+	return r
+}
+
+func seqCase(dir string, d *seqPart, x1 *seqPart, tx string) *vlib.Outcome {
+	o := &vlib.Outcome{Counters: map[string]int64{}}
+	o.Class = "seq/" + dir + "/" + d.name + "/" + textClass(tx)
+	chains := [][]*seqPart{{x1}}
+	for i := range seqXs {
+		chains = append(chains, []*seqPart{x1, &seqXs[i]})
+	}
+	n := 0
+	for _, ch := range chains {
+		for _, t := range seqTemplates(dir, d, ch, tx) {
+			n++
+			got := render(t.src, ctx0)
+			big := render(bigComment+t.src, ctx0)
+			o.Counters["renders"] += 2
+			o.Counters["seq_renders"] += 2
+			if want := "OK:" + t.want; got != want || big != want {
+				names := ch[0].name
+				if len(ch) > 1 {
+					names += ", " + ch[1].name
+				}
+				side := "after the undashed tag(s) [" + names + "] that follow the dash-closed tag"
+				if dir == "L" {
+					side = "before the undashed tag(s) [" + names + "] that precede the dash-opened tag"
+				}
+				o.Violation = fmt.Sprintf("literal text %q %s %q (%s): no dash is adjacent to the text, it must be emitted exactly\n template %q\n got  %.300q\n want %.300q\n behind a 4100-byte comment: %.300q", tx, side, d.src, t.slot, t.src, got, want, big)
+				o.Detail = map[string]string{"template": t.src, "want": want, "got": got, "got_behind_comment": big}
+				return o
+			}
+		}
+	}
+	o.Nontrivial = tx != "" && n > 0
+	if n == 0 {
+		o.Class = "seq/not-literal-text"
+	}
+	edge := tx != "" && strings.ContainsRune(wsChars, rune(tx[0]))
+	if dir == "L" {
+		edge = tx != "" && strings.ContainsRune(wsChars, rune(tx[len(tx)-1]))
+	}
+	if edge && n > 0 {
+		o.Counters["seq_cases_with_whitespace_facing_the_chain"]++
+	}
+	return o
+}
+
+// ---- hist: histories on one process — a render that FAILS after writing text, then successful renders ----
+//
+// Added after the seeded change C04-H was missed: every family above renders each template on a fresh
+// engine and never renders anything after a render that failed. Whatever an implementation keeps between
+// renders (pooled output buffers, …) is process-wide, so a history is: one render that writes literal
+// text and then fails at render time, followed by one or two successful renders — of the same template
+// with a context under which it succeeds, or of other templates of various sizes — through string- and
+// writer-returning entry points. Every successful render must emit its literal text exactly once, with
+// nothing of the failed render in it: output == model, byte for byte. What the failed render itself
+// returns / has written to its writer is not checked (the statement leaves it open).
+
+type histFail struct {
+	name      string
+	src       func(pre, post string) string
+	okValue   string                 // what the failing tag yields under the good context
+	bad, good map[string]interface{} // context entries that make it fail / succeed
+}
+
+var histFails = []histFail{
+	{name: "inc", src: func(a, b string) string { return a + "{% include part %}" + b }, okValue: "I",
+		bad: map[string]interface{}{"part": "no-such-template"}, good: map[string]interface{}{"part": "inc"}},
+	{name: "func", src: func(a, b string) string { return a + "{{ boom(f) }}" + b }, okValue: "B"},
+	{name: "filter", src: func(a, b string) string { return a + "{{ f|bad }}" + b }, okValue: "F"},
+	{name: "macro", src: func(a, b string) string {
+		return "{% macro m(x) %}M{{ boom(x) }}N{% endmacro %}" + a + "{{ m(f) }}" + b
+	}, okValue: "MBN"},
+	{name: "inner", src: func(a, b string) string { return a + "{% include 'hinner' %}" + b }, okValue: "INBOUT"},
+	{name: "apply", src: func(a, b string) string { return a + "{% apply upper %}c{{ boom(f) }}d{% endapply %}" + b }, okValue: "CBD"},
+	{name: "block", src: func(a, b string) string { return a + "{% block b %}c{{ boom(f) }}{% endblock %}" + b }, okValue: "cB"},
+	{name: "for", src: func(a, b string) string { return a + "{% for i in xs %}i{{ boom(f) }}{% endfor %}" + b }, okValue: "iB"},
+	{name: "div", src: func(a, b string) string { return a + "{{ 6 / d }}" + b }, okValue: "3"},
+}
+
+const histPost = "\n<post \xff\x00 }} %}>"
+
+// the literal text the failing template writes before it fails
+var histPres = []struct {
+	name string
+	text func() string
+}{
+	{"1", func() string { return "a" }},
+	{"sigma", func() string { return " \n\t{ } % # - \\ \" ' \xc3\xa9\xff\x00\x80 }} %} <h1>R3S1DU3</h1>\r" }},
+	{"5000", func() string { return longPatByName("bytes").text(5000) }},
+	{"70000", func() string { return longPatByName("ascii").text(70000) }},
+}
+
+// the templates rendered successfully after the failure ("same" = the failing template, good context)
+var histGoods = []struct {
+	name     string
+	src, out func() string
+}{
+	{name: "same"},
+	{"text", func() string { return "T\n" }, func() string { return "T\n" }},
+	{"short", func() string { return "[\xff{{ v }}\x00]{# c #} \n" }, func() string { return "[\xffV\x00] \n" }},
+	{"mid", func() string { return longPatByName("bytes").text(5001) + "{{ v }}" }, func() string { return longPatByName("bytes").text(5001) + "V" }},
+	{"big", func() string { return longPatByName("ascii").text(70001) + "{{ v }}e" }, func() string { return longPatByName("ascii").text(70001) + "Ve" }},
+}
+
+const histReps = 3
+
+func histRouteIdx(thorough bool) []int {
+	if thorough {
+		return []int{0, 1, 2, 3, 4, 5, 6, 7}
+	}
+	return []int{0, 1, 2, 7} // Engine.Render, Template.Render, Engine.RenderTo(bytes.Buffer), Template.RenderTo(plain io.Writer)
+}
+
+type histStep struct{ route, good int }
+
+func histCase(t *vlib.T, hf *histFail, pi int, rf int, s1 histStep) *vlib.Outcome {
+	o := &vlib.Outcome{Counters: map[string]int64{}}
+	o.Class = "hist/" + hf.name + "/" + histPres[pi].name + "/did-not-fail"
+	pre := histPres[pi].text()
+	failSrc := hf.src(pre, histPost)
+	type reg struct {
+		name, src, want string
+		tp              *twig.Template
+	}
+	regs := make([]reg, len(histGoods))
+	for i, g := range histGoods {
+		if g.src == nil {
+			regs[i] = reg{name: "hfail", src: failSrc, want: pre + hf.okValue + histPost}
+		} else {
+			regs[i] = reg{name: "hgood-" + g.name, src: g.src(), want: g.out()}
+		}
+	}
+	badCtx := map[string]interface{}{"v": "V", "t": true, "xs": []interface{}{1}, "f": true, "d": 0, "part": "inc"}
+	goodCtx := map[string]interface{}{"v": "V", "t": true, "xs": []interface{}{1}, "f": false, "d": 2, "part": "inc"}
+	for k, v := range hf.bad {
+		badCtx[k] = v
+	}
+	for k, v := range hf.good {
+		goodCtx[k] = v
+	}
+	var e *twig.Engine
+	if msg := func() (msg string) {
+		defer func() {
+			if r := recover(); r != nil {
+				msg = fmt.Sprintf("PANIC %v", r)
+			}
+		}()
+		e = newEngine()
+		e.AddFunction("boom", func(args ...interface{}) (interface{}, error) {
+			if len(args) > 0 && args[0] == true {
+				return nil, fmt.Errorf("boom: asked to fail")
+			}
+			return "B", nil
+		})
+		e.AddFilter("bad", func(v interface{}, args ...interface{}) (interface{}, error) {
+			if v == true {
+				return nil, fmt.Errorf("bad: asked to fail")
+			}
+			return "F", nil
+		})
+		if err := e.RegisterString("hinner", "IN{{ boom(f) }}OUT"); err != nil {
+			return "RegisterString(hinner): " + err.Error()
+		}
+		for i := range regs {
+			if err := e.RegisterString(regs[i].name, regs[i].src); err != nil {
+				return "RegisterString(" + regs[i].name + "): " + err.Error()
+			}
+			var err error
+			if regs[i].tp, err = e.ParseTemplate(regs[i].src); err != nil {
+				return "ParseTemplate(" + regs[i].name + "): " + err.Error()
+			}
+		}
+		return ""
+	}(); msg != "" {
+		o.Violation = fmt.Sprintf("history after a failed render (%s, text of %d bytes before the failing tag): a template does not parse: %s", hf.name, len(pre), msg)
+		return o
+	}
+	call := func(route int, r *reg, ctx map[string]interface{}) (got string, err error) {
+		defer func() {
+			if p := recover(); p != nil {
+				err = fmt.Errorf("PANIC %v", p)
+			}
+		}()
+		o.Counters["renders"]++
+		o.Counters["hist_renders"]++
+		return longRoutes[route].run(e, r.name, r.tp, ctx)
+	}
+	shown := func(s string) string {
+		if len(pre) > 200 {
+			s = strings.Replace(s, pre, fmt.Sprintf("‹%d bytes›", len(pre)), -1)
+		}
+		if len(s) > 400 {
+			return fmt.Sprintf("%q… (%d bytes in all) …%q", s[:80], len(s), s[len(s)-40:])
+		}
+		return fmt.Sprintf("%q", s)
+	}
+	routes := histRouteIdx(t.Thorough())
+	seqs := [][]histStep{{s1}}
+	for _, r2 := range routes {
+		for g2 := range histGoods {
+			seqs = append(seqs, []histStep{s1, {r2, g2}})
+		}
+	}
+	failed := 0
+	for _, sq := range seqs {
+		t.Progress()
+		for rep := 0; rep < histReps; rep++ {
+			if _, err := call(rf, &regs[0], badCtx); err == nil {
+				// the render did not fail: not a history of the wanted shape (nothing is demanded)
+				continue
+			}
+			failed++
+			for si, st := range sq {
+				r := &regs[st.good]
+				got, err := call(st.route, r, goodCtx)
+				if err == nil && got == r.want {
+					continue
+				}
+				what := ""
+				if err != nil {
+					what = "ERR " + err.Error()
+				} else {
+					what = firstDiff(got, r.want)
+					if strings.Contains(got, pre) && !strings.Contains(r.want, pre) || strings.Count(got, pre) > strings.Count(r.want, pre) {
+						what += "\n the output contains the literal text of the FAILED render"
+					}
+				}
+				var hs []string
+				for _, x := range sq {
+					hs = append(hs, fmt.Sprintf("%s of %q", longRoutes[x.route].name, histGoods[x.good].name))
+				}
+				o.Violation = fmt.Sprintf("history on one engine (repetition %d): %s of template %s fails at render time after writing %d bytes of literal text; then successful renders [%s]: step %d (%s of template %s) does not emit its literal text exactly once\n %s",
+					rep+1, longRoutes[rf].name, shown(failSrc), len(pre), strings.Join(hs, "; "), si+1, longRoutes[st.route].name, shown(r.src), what)
+				o.Detail = map[string]interface{}{"failing_kind": hf.name, "failing_template": shown(failSrc), "failing_route": longRoutes[rf].name,
+					"bytes_before_failure": len(pre), "history": hs, "step": si + 1, "repetition": rep + 1, "what": what}
+				return o
+			}
+		}
+	}
+	if failed > 0 {
+		o.Nontrivial = true
+		o.Class = "hist/" + hf.name + "/" + histPres[pi].name + "/" + longRoutes[rf].id + "/failed-then-ok"
+		o.Counters["hist_failed_renders"] += int64(failed)
+	}
+	return o
+}
+
+func histFamily(t *vlib.T) {
+	routes := histRouteIdx(t.Thorough())
+	for pi := range histPres {
+		for fi := range histFails {
+			hf := &histFails[fi]
+			for _, rf := range routes {
+				for _, r1 := range routes {
+					for g1 := range histGoods {
+						pi, rf, s1 := pi, rf, histStep{r1, g1}
+						t.Case(fmt.Sprintf("hist/%s/%s/%s/%s-%s", hf.name, histPres[pi].name, longRoutes[rf].id, longRoutes[r1].id, histGoods[g1].name), func() *vlib.Outcome {
+							return histCase(t, hf, pi, rf, s1)
+						})
+						if t.Stopped() {
+							return
+						}
+					}
+				}
+			}
+		}
+	}
+}
+
 // ---- enumeration ----------------------------------------------------------------------------
 
 // words enumerates all sequences over n symbols of length exactly l, in lexicographic order.
@@ -933,9 +1290,9 @@ func cat(alpha []string, idx []int) string {
 }
 
 func run(t *vlib.T) {
-	litMax, litMaxDeep, comMax, verbMax, escMax := 3, 4, 3, 3, 3
+	litMax, litMaxDeep, comMax, verbMax, escMax, seqMax := 3, 4, 3, 3, 3, 2
 	if t.Thorough() {
-		litMax, litMaxDeep, comMax, verbMax, escMax = 4, 5, 4, 4, 4
+		litMax, litMaxDeep, comMax, verbMax, escMax, seqMax = 4, 5, 4, 4, 4, 3
 	}
 	comAlpha := append(append([]string{}, sigma...), comExtra...)
 	deep := map[string]bool{"print": true, "ifdash": true}
@@ -1003,8 +1360,36 @@ func run(t *vlib.T) {
 				})
 			}
 		}
+		// text next to an undashed tag that is itself next to a dashed tag (chains of one or two undashed tags)
+		if l <= seqMax {
+			for _, dir := range []string{"R", "L"} {
+				ds := seqDashR
+				if dir == "L" {
+					ds = seqDashL
+				}
+				dir := dir
+				for di := range ds {
+					d := &ds[di]
+					for xi := range seqXs {
+						x1 := &seqXs[xi]
+						words(len(sigma), l, func(idx []int) bool {
+							tx := cat(sigma, idx)
+							t.Case("seq/"+dir+"/"+d.name+"/"+x1.name+"/"+keyOf(idx), func() *vlib.Outcome { return seqCase(dir, d, x1, tx) })
+							return !t.Stopped()
+						})
+					}
+				}
+			}
+		}
 		if t.Stopped() {
 			return
+		}
+		// the histories (a failed render, then successful ones) come once, after the shortest strings
+		if l == 1 {
+			histFamily(t)
+			if t.Stopped() {
+				return
+			}
 		}
 		// the long runs come before the levels that only deepen two tag kinds, so that a deadline cuts those first
 		if l == litMax {
@@ -1025,11 +1410,15 @@ func main() {
 			"com: every comment body of <= 3 (thorough 4) symbols of that alphabet plus {{ probe() }}, {% if %}, {{, %}; verb: every verbatim body of <= 3 (thorough 4) items under 4 contexts; " +
 			"place: each of those comment and verbatim bodies again in 13 placements (macro body called directly / via _self / via import-as / via from-import, block plain / overriding / through parent() / inherited, included template, for body, if branch, else branch, apply upper), same oracle. " +
 			"long: one run of 4096 / 32767 / 32768 / 32769 / 65535 / 65536 / 65537 / 100000 / 300000 bytes (thorough: 25 lengths, the neighbours of 4096, 8192, 16384, 1..4 x 32768, 1 MiB) of a non-periodic record stream (ascii page text; every symbol of the alphabet) as literal text in every slot of every tag kind, as a verbatim body, as a comment body and (an escape-proof stream) as a printed context value alone / next to text / before / between / after / inside the 8 undashed tag kinds, each through 8 output routes (Engine.Render, Template.Render, Engine.RenderTo and Template.RenderTo into bytes.Buffer, strings.Builder, a plain io.Writer without WriteString), byte-exact on every route. " +
+			"seq: every string of <= 2 (thorough 3) symbols as literal text after D X1 [X2] and before X1 [X2] D', D a dash-closed tag ({{ v -}}, {{- v -}}, {% set q = 1 -%}, {% if t -%}, {% if t %}y{% endif -%}), D' a dash-opened tag ({{- v }}, {{- v -}}, {%- set q = 1 %}, {%- if t %}y{% endif %}, {%- endif %}), X1 X2 any of 7 undashed tags ({{ v }}, {##}, {# c #}, {% set q = 1 %}, {% if t %} with the text inside, {% endif %}, {% if t %}y{% endif %}) with no text between the tags, at the end of the template and followed / preceded by {{ v }}, bare and behind the 4100-byte comment: the text is adjacent to no dash and must be emitted exactly. " +
+			"hist: every history <F, S1[, S2]> on one engine, run 3 times in a row: F = a render that fails after writing literal text (1 byte / 48 bytes holding every symbol of the alphabet / 5000 / 70000 bytes before the failing tag: include of a missing template named by the context, failing user function, failing user filter, failing function inside a called macro, inside an included template, inside apply, inside a block, inside a for body, division by zero) through Engine.Render, Template.Render, Engine.RenderTo(bytes.Buffer), Template.RenderTo(plain io.Writer) (thorough: all 8 routes); S = a successful render, through each of those routes, of the same template under a good context / a 2-byte text / a short template / a 5 001-byte / a 70 001-byte run followed by a print tag: every S must equal its model byte for byte; a history is non-trivial when F did fail. " +
 			"non-trivial = the text / body is non-empty and admissible as literal text in at least one slot",
 		Assumptions: []string{
 			"a lone { immediately before a tag opener is excluded (maximal munch), as is text that itself contains an opener; what a backslash immediately before an opener and the tag after it render to is left open (undocumented escape) — only the text before the backslash and after the closer is checked (prefix / suffix); a text ending in a backslash before the escaping backslash is excluded",
 			"verbatim content is checked for context independence, absence of context data and evaluated content, and in-order presence of its literal text items; its tag-like parts need not be byte-exact",
 			"bytes outside the 17-symbol alphabet and texts longer than the bound are not explored, except the long runs: those have two fixed contents per length, not every content",
+			"seq: the block constructs in a chain are `if` with a true condition only; a dash is taken to ask for the removal of the whitespace adjacent to its own delimiter and of nothing beyond the next tag",
+			"hist: what a failing render returns or has already written to its writer is not checked; a history whose first render does not fail is not judged; each history is repeated 3 times because which pooled object a render draws is not under the caller's control",
 			"long runs: a writer is assumed to accept every Write in full; writers that fail or write short are not explored; printed long values avoid the characters an HTML escaper rewrites",
 		},
 		QuickDeadline:    120,
@@ -1053,6 +1442,12 @@ func main() {
 				rn = append(rn, r.name)
 			}
 			cov["long_run_routes"] = strings.Join(rn, ", ")
+			var fk []string
+			for _, f := range histFails {
+				fk = append(fk, f.name)
+			}
+			cov["history_failure_kinds"] = strings.Join(fk, ",")
+			cov["seq_chain_tags"] = len(seqXs)
 		},
 	})
 }
